@@ -504,6 +504,9 @@ def tlv_scenarios(prog, chk, pid, tier):
             if d is None:
                 bad = bad or (label, "block %d does not decode" % bi)
                 break
+            if len(d) > 1 and len(bb) > LIMIT:
+                # an entry that does not fit sits alone in its block: anything appended to it makes a block that the one-byte length prefix may not be able to express
+                bad = bad or (label, "block %d holds %d entries and has %d bytes, limit is %d (only a single oversize entry may exceed it)" % (bi, len(d), len(bb), LIMIT))
             ops.extend(d)
         else:
             if ops != want:
